@@ -1,2 +1,13 @@
 #!/bin/sh
-exit 0
+# Build the fact extractor and warm the dependency build cache (offline). Idempotent.
+set -e
+cd "$(dirname "$0")"
+export CARGO_NET_OFFLINE=true
+(cd driver && cargo build --offline 2>&1 | tail -3)
+python3 - <<'PY'
+import sys
+sys.path.insert(0, ".")
+from engine import extract
+d, th, n, s = extract.ensure_facts()
+print("facts ready: %s (tree %s, %d files, %.1fs)" % (d, th, n, s))
+PY
